@@ -46,7 +46,7 @@ type C15Op struct {
 	Len     int    `json:"len,omitempty"`      // read/write: length code
 }
 
-// C15Case is a sequence over 3 accounts, 2 pools and 2 contracts.
+// C15Case is a sequence over 3 accounts, 5 pools and 2 contracts.
 type C15Case struct {
 	Ops []C15Op `json:"ops"`
 }
@@ -73,7 +73,7 @@ type c15 struct {
 }
 
 func newC15(cs *kit.CaseStats) (*c15, error) {
-	s, err := newSession(rhpx.HostConfig{}, 3, 2, cs)
+	s, err := newSession(rhpx.HostConfig{}, 3, 5, cs)
 	if err != nil {
 		return nil, err
 	}
@@ -329,6 +329,19 @@ func (x *c15) debitModel(a int, cost types.Currency) (intoPool bool) {
 		}
 		take(&x.PBal[i])
 	}
+	// the debit stopped before the end of the list: the order is observable
+	// in the per-pool balances
+	touched := false
+	for k, p := range x.Att[x.Accts[a]] {
+		_ = k
+		if i := x.poolIdx(p); !x.PBal[i].IsZero() && touched {
+			x.cs.Class("debit-stops-inside-pool-list")
+		}
+		touched = true
+	}
+	if n := len(x.Att[x.Accts[a]]); n >= 3 {
+		x.cs.Classf("debit-with-%d-pools-attached", n)
+	}
 	return
 }
 
@@ -439,6 +452,10 @@ func (x *c15) service(op C15Op) error {
 			total = price.Sub(types.NewCurrency64(1))
 		case 1:
 			total = price.Add(types.NewCurrency64(1))
+		case 2: // plenty: the debit stops in the middle of the pool list
+			total = price.Mul64(2)
+		case 3:
+			total = price.Add(price.Div64(2))
 		}
 		if err := x.topUp(m, a, total, op.Split); err != nil {
 			return err
@@ -868,12 +885,16 @@ func genC15(t *rapid.T) C15Case {
 		maxOps = 24
 	}
 	n := rapid.IntRange(2, maxOps).Draw(t, "nops")
-	init := rapid.IntRange(0, 3).Draw(t, "ninit")
+	init := rapid.IntRange(0, 6).Draw(t, "ninit")
+	hub := rapid.IntRange(0, 2).Draw(t, "hub") // the account most initial attachments go to, so that 3-5 pools pile up on it
 	for i := 0; i < n; i++ {
-		op := C15Op{C: rapid.IntRange(0, 1).Draw(t, "c"), A: rapid.IntRange(0, 2).Draw(t, "a"), P: rapid.IntRange(0, 1).Draw(t, "p")}
+		op := C15Op{C: rapid.IntRange(0, 1).Draw(t, "c"), A: rapid.IntRange(0, 2).Draw(t, "a"), P: rapid.IntRange(0, 4).Draw(t, "p")}
 		k := rapid.IntRange(0, 23).Draw(t, "op")
 		if i < init {
 			k = 9 // start with attachments so that pooled debits are reachable
+			if rapid.IntRange(0, 4).Draw(t, "tohub") > 0 {
+				op.A = hub
+			}
 		}
 		switch {
 		case k < 2:
@@ -888,7 +909,7 @@ func genC15(t *rapid.T) C15Case {
 			op.Op = "repl-pool"
 		case k < 11:
 			op.Op = "attach"
-		case k < 13:
+		case k < 14:
 			op.Op = "detach"
 			op.By = rapid.SampledFrom([]string{"pool", "account"}).Draw(t, "by")
 		case k < 17:
@@ -904,7 +925,7 @@ func genC15(t *rapid.T) C15Case {
 		case "repl-acct", "repl-pool":
 			nk := rapid.IntRange(1, 3).Draw(t, "nkeys")
 			for j := 0; j < nk; j++ {
-				op.Keys = append(op.Keys, rapid.IntRange(0, 2).Draw(t, "key"))
+				op.Keys = append(op.Keys, rapid.IntRange(0, 4).Draw(t, "key"))
 			}
 			op.Dup = rapid.IntRange(0, 5).Draw(t, "dup") == 0
 			if rapid.Bool().Draw(t, "abs") {
@@ -916,7 +937,7 @@ func genC15(t *rapid.T) C15Case {
 			if op.Op == "attach" {
 				op.Ensure = rapid.IntRange(0, 5).Draw(t, "ensure") > 0
 			} else if rapid.IntRange(0, 3).Draw(t, "pick?") > 0 {
-				op.Pick = 1 + rapid.IntRange(0, 5).Draw(t, "pick")
+				op.Pick = 1 + rapid.IntRange(0, 9).Draw(t, "pick")
 			}
 			if rapid.IntRange(0, 3).Draw(t, "bad?") == 0 {
 				op.Bad = rapid.SampledFrom([]string{"wrong-key", "other-host", "expired"}).Draw(t, "bad")
@@ -925,7 +946,7 @@ func genC15(t *rapid.T) C15Case {
 				}
 			}
 			if rapid.IntRange(0, 3).Draw(t, "batch?") == 0 {
-				op.Batch = []int{rapid.IntRange(0, 2).Draw(t, "ba"), rapid.IntRange(0, 1).Draw(t, "bp")}
+				op.Batch = []int{rapid.IntRange(0, 2).Draw(t, "ba"), rapid.IntRange(0, 4).Draw(t, "bp")}
 			}
 		case "read", "verify", "write":
 			if rapid.IntRange(0, 7).Draw(t, "abort?") == 0 {
@@ -937,8 +958,8 @@ func genC15(t *rapid.T) C15Case {
 				op.AbortAt, op.Mode = p.AbortAt, p.Mode
 			}
 			op.Pref = rapid.IntRange(0, 3).Draw(t, "pref") > 0
-			op.Delta = rapid.SampledFrom([]int{-1, -1, 0, 0, 0, 1, 1, 9}).Draw(t, "delta")
-			ns := rapid.IntRange(0, 3).Draw(t, "nsplit")
+			op.Delta = rapid.SampledFrom([]int{-1, -1, 0, 0, 0, 1, 1, 2, 2, 3, 9}).Draw(t, "delta")
+			ns := rapid.IntRange(0, 6).Draw(t, "nsplit")
 			for j := 0; j < ns; j++ {
 				op.Split = append(op.Split, rapid.SampledFrom([]int{0, 1, 1, 2, 3, 4}).Draw(t, "w"))
 			}
@@ -959,7 +980,7 @@ func genC15(t *rapid.T) C15Case {
 
 var c15Prop = kit.Prop[C15Case]{
 	ID:   "C15",
-	Rule: "sequences (2..12, thorough 2..24) over 3 accounts, 2 pools and 2 contracts against the real rhp4.Server: fund, replenish accounts/pools (targets below, at and above the current balance, mixed keys), attach/detach (valid incl. batches and idempotent repeats; signed by the wrong key; bound to another host key; expired; never-funded pool), read/write/verify with the drawable funds (own balance + attached pools, split by drawn weights) topped up to cost-1, cost or cost+1, unknown sectors, invalid account tokens, a renter that stops / stalls / truncates the request or the data stream or does not read the answer, balance queries. Oracle from the recorded Contractor/Sectors calls and a balance model: every credit batch is carried by exactly one doubly-signed revision moving the same total from renter to host; every debit carries core's price of the request and precedes the single sector operation; insufficient funds / invalid token / unknown sector => no data, no sector operation, no balance change; replenish leaves max(before, target); rejected attach/detach never reach the contractor; balances and the ordered attachment table (read by value) equal the model (own balance first, then pools in attachment order) after every step. Non-trivial = a debit that drains the account's own balance and continues into a pool, or a request exactly one hasting short; distinct by hash of the case.",
+	Rule: "sequences (2..12, thorough 2..24) over 3 accounts, 5 pools and 2 contracts against the real rhp4.Server: fund, replenish accounts/pools (targets below, at and above the current balance, mixed keys), attach/detach (valid incl. batches and idempotent repeats; signed by the wrong key; bound to another host key; expired; never-funded pool), read/write/verify with the drawable funds (own balance + attached pools, split by drawn weights) topped up to cost-1, cost or cost+1, unknown sectors, invalid account tokens, a renter that stops / stalls / truncates the request or the data stream or does not read the answer, balance queries. Oracle from the recorded Contractor/Sectors calls and a balance model: every credit batch is carried by exactly one doubly-signed revision moving the same total from renter to host; every debit carries core's price of the request and precedes the single sector operation; insufficient funds / invalid token / unknown sector => no data, no sector operation, no balance change; replenish leaves max(before, target); rejected attach/detach never reach the contractor; balances and the ordered attachment table (read by value) equal the model (own balance first, then pools in attachment order) after every step. Non-trivial = a debit that drains the account's own balance and continues into a pool, or a request exactly one hasting short; distinct by hash of the case.",
 	Assumptions: []string{
 		"host = rhp4.Server over the repository's reference EphemeralContractor / EphemeralSectorStore, in-memory transport",
 		"a replenish request may list a key twice (the request validation does not exclude it); the expectation is the statement's: the balance ends at max(before, target); a host that refuses such a request outright is accepted too",
